@@ -22,5 +22,7 @@ def run(ctx):
     Q.q6_expansion_order(ctx)
     Q.q7_do_level(ctx)
     Q.q8_add(ctx)
+    Q.q11_distinct_containers(ctx)
+    ctx.floor("Q11", 1)
     for rule, n in (("Q1", 2), ("Q2", 2), ("Q3", 2), ("Q4", 6), ("Q5", 6), ("Q6", 3), ("Q7", 2), ("Q8", 1), ("Q9", 2), ("Q10", 2)):
         ctx.floor(rule, n)
